@@ -96,6 +96,44 @@ CHECKS = {
         "per-point forward rounding bounds evaluated in mpmath; endpoints chi=+-1 recorded, not "
         "judged",
         "DESIGN.md §4 C17"),
+    "C12": (
+        "contract monitors on the real buildLinearEquations/solveBoltzmannEquations/"
+        "setBackground (backward error of every solve, homogeneous-background nullity, "
+        "determinism), metamorphic relation over the four basis combinations with "
+        "numpy.polynomial conversion, finite-difference vs spectral convergence series, "
+        "closed-form operator/source on polynomial backgrounds (complex-step f_eq)",
+        "Runtime monitoring of 112 (quick) / 780 (thorough) Boltzmann configurations: 1-3 "
+        "particles of both statistics, T/v/field/combined/homogeneous backgrounds, M 10..40 "
+        "(series to 160), N 3..11, synthetic non-singular collision operators. Held on the "
+        "executions observed.",
+        "synthetic collision arrays (no real collision data offline); tolerances scaled by the "
+        "measured condition number",
+        "DESIGN.md §4 C12"),
+    "C14": (
+        "hook monitors on CollisionArray.newFromDirectory/changeBasis/"
+        "interpolateCollisionArray and BoltzmannSolver.loadCollisions: uniquely tagged "
+        "synthetic HDF5 directories, action-tensor oracle (numpy chebvander + scipy "
+        "barycentric Lagrange), exact state comparison around injected load faults",
+        "Fault enumeration + exploration: every subset of missing pair files (511 for three "
+        "particles), oversize targets, size/basis mismatch in every file position, missing "
+        "dataset/metadata, each inside ok->faulty->ok sequences on one solver; 1-3 particles, "
+        "stored N 5..11, every smaller odd target, both bases. Held on the executions observed.",
+        "synthetic files in the format newFromDirectory reads; non-HDF5 stubs recorded, not "
+        "judged",
+        "DESIGN.md §4 C14"),
+    "C15": (
+        "differential monitor between the two real solvers (Hydrodynamics vs "
+        "HydrodynamicsTemplateModel) on template-form equations of state, tolerance "
+        "propagated from both sides through sensitivities measured on the real code and the "
+        "reference integrator; one-sided answers arbitrated by the flux and reference-flow "
+        "oracles",
+        "Runtime monitoring of ~1000 (quick) / ~25000 (thorough) matching pairs plus vJ, vMin, "
+        "boundary constants, LTE velocity and efficiency factor on 140/3000 template parameter "
+        "sets over five decades of T_n. Held on the executions observed except for the listed "
+        "known findings.",
+        "comparisons in which the general solver itself used its template fallback are counted "
+        "as trivial and excluded from distinct_nontrivial",
+        "DESIGN.md §4 C15"),
 }
 
 ALL = [f"C{i:02d}" for i in range(1, 21)]
